@@ -7,7 +7,7 @@ M=$1; shift
 W=$(mktemp -d /tmp/mutcheck.XXXX)
 git -C /repo worktree add --detach "$W" HEAD -f >/dev/null 2>&1
 cd "$W"
-dir=$(grep -oE '(pkg/[a-z/]+|cmd)/?' "$M/demo_test.go" | head -1); dir=${dir%/}
+dir=${DEMO_DIR:-}; [ -z "$dir" ] && dir=$(grep -oE '(pkg/[a-z/]+|cmd)/?' "$M/demo_test.go" | head -1); dir=${dir%/}
 if [ -z "$dir" ]; then dir=$(python3 -c "import json;print(json.load(open('$M/meta.json')).get('demo_dir',''))"); fi
 echo "demo dir: $dir"
 export GOFLAGS=-mod=mod GOPROXY=off
